@@ -97,6 +97,41 @@ _T = {
 for _p, (_m, _text, _note) in _T.items():
     BUILT[_p] = (_m, '4/' + _p, _text + ' Exploration (seeded sampling of histories/schedules/faults) is the level this property can be given by simulation.', _note)
 
+# what the second round of strengthening added to each machine (appended to the level text)
+ADDED = {
+    'C01': 'Also: a failing printer (flush on Break, at program end, at session close), files bound with bind_file, unattached LPT/COM names, damaged and cut-off program files, memory blocks at the edges of the address space, pending edit prompts, endless sounds across restarts.',
+    'C10': 'Also: statements that fail part-way, console INPUT into variables that do not exist yet under memory pressure, suspend/resume between string operations, program-changing statements (MERGE, typed lines, DELETE, RENUM) with variables pointing into program text.',
+    'C11': 'Also: multi-name ERASE/DIM that fail part-way followed by the full VARPTR/PEEK/disjointness audit, program-changing statements.',
+    'C12': 'Also: a failing LET into an undeclared array (the target is the first use), OPTION BASE after ERASE of every array.',
+    'C13': 'Also: memory-limited sessions (the program must still fit after every accepted line, MERGE and LOAD), refused lines leave listing and links unchanged.',
+    'C14': 'Also: event traps in every state (defined only, ON, STOP, OFF, inside their handler, with an event pending) at a RENUM issued during a STOP/Break pause and continued with CONT; RENUM rejected part-way.',
+    'C15': 'Also: bounded liveness after faults (once faults stop, SAVE then LOAD succeeds), faults on exactly the flush/close of a SAVE.',
+    'C16': 'Also: CHAIN from an unprotected loader with COMMON strings into a protected program, SAVE aimed at every device, every sink scanned for tokenised text of the protected program.',
+    'C20': 'Also: repeated parameter names (also via DEFtype and sigils), Break and quit inside a function body.',
+    'C21': 'Also: errors in the first statement of an event-trap routine, STOP/Break and CONT inside the handler, a handler that evaluates nothing before RESUME n.',
+    'C23': 'Also: resets issued from inside an unfinished error handler, event-trap routine, loops and subroutines (by the program or after Ctrl+Break), FIELDed COMMON variables, shared storage of COMMON strings after CHAIN.',
+    'C24': 'Also: refused statements (OPEN, SAVE, KILL, NAME on an open file) must leave the host file unchanged; suspend/resume with files open; CR LF at the edges of quoted strings.',
+    'C25': 'Also: PUT/GET that fail part-way with implicit record numbers (locks, ACCESS, host faults), statements that reset the FIELD buffers while the file stays open (CHAIN, CLEAR, NEW, typed line, MERGE), program mode.',
+    'C26': 'Also: unnumbered opens (SAVE, LIST, BSAVE) on open files, three file numbers on one file, refused opens leave the file unchanged.',
+    'C27': 'Also: the spelling of the mount path (trailing/doubled separators, dot elements, symlinks, relative paths), surplus .., suspend/resume with files open while another party unmounts, renames or removes things, sentinels in the process working directory.',
+    'C28': 'Also: directory prefixes with dots, prefix-named sibling directories and a model of the drive cwd audited after every directory statement.',
+    'C29': 'Also: tape headers written by other software, suspend/resume while recording, searches that run to the end of the tape followed by writing, long names, statements that fail behind the header, recording over used tape.',
+    'C30': 'Also: statements that fail part-way must leave viewport, window, last point and pixels unchanged; VIEW without fill/border draws nothing.',
+    'C35': 'Also: Ctrl+Break at a seeded poll inside long drawing and printing statements, line editing of wrapped lines around the VIEW PRINT area, DBCS text.',
+    'C36': 'Also: a per-page reference for text pages with PCOPY and page switches, LOCATE that fails (each argument legal/illegal/omitted) followed by a bare line break.',
+    'C37': 'Also: Ctrl+Break typed between keys (also in the same poll) with CONT, for INKEY$ and INPUT$ readers.',
+    'C38': 'Also: errors at the head of a trap routine and inside the error handler, STOP/CONT, suspend/resume while stopped.',
+    'C39': 'Also: signed zeros, two values alive in one expression, RANDOMIZE that fails part-way or is answered at the prompt.',
+    'C40': 'Also: suspensions inside waiting INPUT statements (alone and after a boundary suspension; final data compared), sessions with a text-file encoding.',
+    'C41': 'Also: the converter of a resumed session (saved and rebuilt).',
+    'C42': 'Also: referenced variables placed at steered addresses, programs with STOP/CONT, state carried across Break/STOP/error, suspend/resume with music queued and time passing.',
+    'C44': 'Also: suspend/resume, values set from an operand that blocks while the user types.',
+}
+for _p, _t in ADDED.items():
+    if _p in BUILT:
+        _m, _r, _text, _note = BUILT[_p]
+        BUILT[_p] = (_m, _r, _text + ' ' + _t, _note)
+
 PURE = {
     'C02': 'pure function of two 16-bit operands: no schedule, clock, fault or history for a simulator to own (needs exhaustive enumeration/SMT)',
     'C03': 'pure function of a bit pattern: not a simulation target',
